@@ -58,10 +58,10 @@ __CPROVER_ensures(g_stop_seen)                 /* returns only after the stop ma
 __CPROVER_ensures(g_lost == 0)                 /* every reclaimer handed over before the marker has run */
 ;
 //@loop GC_keep_reclaim 1
-//@  __CPROVER_assigns(@l1@, @l3@, @l5@, g_size, g_uninvoked, g_lost, g_stop_seen, g_lwm, g_cur_epoch, g_cur_index, g_invocations, g_task.lowest_epoch)
-//@  __CPROVER_loop_invariant(@l3@ <= g_size && g_size <= (1UL << 40) && g_uninvoked == g_size - @l3@ && g_lost == 0)
-//@  __CPROVER_loop_invariant(@l1@ == !g_stop_seen)
-//@  __CPROVER_loop_invariant(@l2@ >= 1 && @l2@ <= 1024)
+//@  __CPROVER_assigns(@l1:running@, @l3:index@, @l5:backoff_us@, g_size, g_uninvoked, g_lost, g_stop_seen, g_lwm, g_cur_epoch, g_cur_index, g_invocations, g_task.lowest_epoch)
+//@  __CPROVER_loop_invariant(@l3:index@ <= g_size && g_size <= (1UL << 40) && g_uninvoked == g_size - @l3:index@ && g_lost == 0)
+//@  __CPROVER_loop_invariant(@l1:running@ == !g_stop_seen)
+//@  __CPROVER_loop_invariant(@l2:batch@ >= 1 && @l2:batch@ <= 1024)
 //@end
 
 /* ---- stubs used when reclaim_start_from itself is verified ---- */
@@ -82,10 +82,10 @@ __CPROVER_assigns(g_invocations, g_uninvoked)
 __CPROVER_ensures(g_invocations == __CPROVER_old(g_invocations) + 1 && g_uninvoked == __CPROVER_old(g_uninvoked) - 1)
 ;
 //@loop GC_reclaim_start_from 1
-//@  __CPROVER_assigns(@p1@, @l1@, g_cur_epoch, g_cur_index, g_task.lowest_epoch, g_invocations, g_uninvoked)
-//@  __CPROVER_loop_invariant(@p1@ <= g_size && @l1@ <= @p1@ && g_uninvoked == g_size - @p1@)
-//@  __CPROVER_loop_invariant(g_invocations == __CPROVER_loop_entry(g_invocations) + @l1@)
-//@  __CPROVER_loop_invariant(@p1@ == __CPROVER_loop_entry(@p1@) + @l1@)
-//@  __CPROVER_decreases(g_size - @p1@)
+//@  __CPROVER_assigns(@p1:index@, @l1:reclaimed@, g_cur_epoch, g_cur_index, g_task.lowest_epoch, g_invocations, g_uninvoked)
+//@  __CPROVER_loop_invariant(@p1:index@ <= g_size && @l1:reclaimed@ <= @p1:index@ && g_uninvoked == g_size - @p1:index@)
+//@  __CPROVER_loop_invariant(g_invocations == __CPROVER_loop_entry(g_invocations) + @l1:reclaimed@)
+//@  __CPROVER_loop_invariant(@p1:index@ == __CPROVER_loop_entry(@p1:index@) + @l1:reclaimed@)
+//@  __CPROVER_decreases(g_size - @p1:index@)
 //@end
 #endif
